@@ -3,7 +3,7 @@
     that the model still evaluates when an obligation of ShutdownGen.v no
     longer checks. *)
 From Coq Require Import List NArith Bool String.
-From Verif Require Import Sni.SchedSkel Sni.Shutdown Gen.TransportSkel.
+From Verif Require Import Sni.SchedSkel Sni.Shutdown Sni.ShutdownEndpoint Gen.TransportSkel.
 Import ListNotations.
 Local Open Scope string_scope.
 
@@ -18,5 +18,16 @@ Definition gen_cfg : cfg :=
         (last (points_of "transport.call" gen_transport_blocking) [])
         (nth 0 (points_of "transport.handleMessage" gen_transport_blocking) [])
         (nth 1 (points_of "transport.handleMessage" gen_transport_blocking) [])
+        (last (points_of "connMailBox.receive" gen_transport_blocking) [])
         (cap_of "calls") (cap_of "pendingFetch").
 
+
+(** The endpoint side: the selects of Endpoint.Accept, Endpoint.Close and
+    Endpoint.sendAccept as they are in the source now; cap(p.incoming) is
+    the constant in newEndpoint (checked against the frozen skeleton of
+    newEndpoint in ShutdownGen.v). *)
+Definition gen_ecfg : ecfg :=
+  mkECfg (nth 0 (points_of "Endpoint.Accept" gen_transport_blocking) [])
+         (nth 0 (points_of "Endpoint.Close" gen_transport_blocking) [])
+         (nth 0 (points_of "Endpoint.sendAccept" gen_transport_blocking) [])
+         10.
